@@ -245,8 +245,10 @@ func ComputeLALR1Kernels(G *grammar.CFG) lr.ItemSetCollection {
 	return K1
 }
 
-// findSuperset searches the state map for a state whose item set is a superset of the given item set.
+// findSuperset searches the state map for the state whose item set has the same core as the given item set
+// and is a superset of it. The core of a set of LR(1) items is the set of their LR(0) items (lookaheads dropped).
 // A superset means that all items in the given item set are contained within the state's item set.
+// Requiring the same core matters because a state with a larger core can also contain all the given items.
 // If such a state is found, its index is returned.
 // If no such state exists, or if the provided item set is empty, ErrState is returned.
 func findSuperset(S lr.StateMap, I lr.ItemSet) lr.State {
@@ -254,13 +256,25 @@ func findSuperset(S lr.StateMap, I lr.ItemSet) lr.State {
 		return lr.ErrState
 	}
 
+	coreI := core(I)
+
 	for i := range S {
-		if s := lr.State(i); S.ItemSet(s).IsSuperset(I) {
+		if s := lr.State(i); S.ItemSet(s).IsSuperset(I) && core(S.ItemSet(s)).Equal(coreI) {
 			return s
 		}
 	}
 
 	return lr.ErrState
+}
+
+// core returns the set of LR(0) items obtained by dropping the lookaheads from a set of LR(1) items.
+func core(I lr.ItemSet) lr.ItemSet {
+	C := lr.NewItemSet()
+	for item := range I.All() {
+		C.Add(item.(*lr.Item1).Item0())
+	}
+
+	return C
 }
 
 // scopedItem represents an individual item within an item set.
